@@ -1,0 +1,52 @@
+//go:build verif
+
+// Machine-checked contracts for package exif2 (comment-only; read by /verif/bin/vcgo).
+// le16/be16/le32/be32 are defined in /verif/specs/bytes.spec; lemmas about entries in /verif/specs/exif.spec.
+package exif2
+
+// ---- C07 / C03: a 12-byte IFD entry is decoded field by field in the directory's byte order ----
+// (TIFF 6.0 section 2: bytes 0-1 tag, 2-3 type, 4-7 count, 8-11 value or offset.)
+
+//@ func tagFromBuffer
+//@   props C07 C03 C01
+//@   requires len(buf) >= 12
+//@   pure
+//@   ensures [C07 C03] ifd.ByteOrder == utils.BigEndian ==> t.ID == tag.ID(be16(buf, 0)) && t.UnitCount == be32(buf, 4) && t.ValueOffset == be32(buf, 8) + ifd.BaseOffset && t.Type == tagIsIfd(ifd.Type, tag.ID(be16(buf, 0)), tag.Type(be16(buf, 2)))
+//@   ensures [C07 C03] ifd.ByteOrder != utils.BigEndian ==> t.ID == tag.ID(le16(buf, 0)) && t.UnitCount == le32(buf, 4) && t.ValueOffset == le32(buf, 8) + ifd.BaseOffset && t.Type == tagIsIfd(ifd.Type, tag.ID(le16(buf, 0)), tag.Type(le16(buf, 2)))
+//@   ensures [C07 C03] t.Ifd == ifd.Type && t.IfdIndex == ifd.Index && t.ByteOrder == ifd.ByteOrder
+//@   ensures [C03] err == nil <==> t.Type.IsValid()
+//@   ensures [C03] err != nil ==> err == tag.ErrTagTypeNotValid
+
+// The offset slot re-serialised in the tag's own byte order: together with tagFromBuffer (BaseOffset 0) and the
+// injectivity lemmas le32_injective/be32_injective this gives back the ORIGINAL four slot bytes in file order, which is
+// where BYTE/ASCII/SHORT values sit for either order.
+//@ func Tag.EmbeddedValue
+//@   props C07 C03 C01
+//@   requires len(buf) >= 4
+//@   modifies mem(buf)
+//@   ensures [C07] t.ByteOrder == utils.BigEndian ==> be32(buf, 0) == t.ValueOffset
+//@   ensures [C07] t.ByteOrder != utils.BigEndian ==> le32(buf, 0) == t.ValueOffset
+
+// ---- C07: decoders of values embedded in the offset slot read the slot bytes in FILE order (left-justified values),
+// so an II and an MM block that embed the same value decode alike. slotByte0/slotShort0: /verif/specs/exif.spec.
+
+//@ func (*ifdReader).ParseUint16
+//@   props C07 C03 C01
+//@   requires ir.buffer != nil
+//@   ensures [C07 C03] t.IsEmbedded() && t.Type == tag.TypeShort ==> r0 == slotShort0(t.ValueOffset, t.ByteOrder)
+//@   ensures [C07 C03] !(t.IsEmbedded() && t.Type == tag.TypeShort) ==> r0 == 0
+
+//@ func (*ifdReader).ParseUint32
+//@   props C07 C03 C01
+//@   requires ir.buffer != nil
+//@   ensures [C07 C03] t.Type == tag.TypeLong ==> r0 == t.ValueOffset
+//@   ensures [C07 C03] t.Type == tag.TypeShort ==> r0 == uint32(slotShort0(t.ValueOffset, t.ByteOrder))
+//@   ensures [C07 C03] t.Type != tag.TypeLong && t.Type != tag.TypeShort ==> r0 == 0
+
+//@ func (*ifdReader).ParseGPSRef
+//@   props C07 C03 C01
+//@   requires ir.buffer != nil
+//@   ensures [C07 C03] t.IsEmbedded() && t.ID == gpsifd.GPSAltitudeRef ==> r0 == (t.Type == tag.TypeByte && slotByte0(t.ValueOffset, t.ByteOrder) == 1)
+//@   ensures [C07 C03] t.IsEmbedded() && t.ID == gpsifd.GPSLatitudeRef ==> r0 == (t.Type == tag.TypeASCII && slotByte0(t.ValueOffset, t.ByteOrder) == 'S')
+//@   ensures [C07 C03] t.IsEmbedded() && t.ID == gpsifd.GPSLongitudeRef ==> r0 == (t.Type == tag.TypeASCII && slotByte0(t.ValueOffset, t.ByteOrder) == 'W')
+//@   ensures [C07 C03] !t.IsEmbedded() ==> r0 == false
